@@ -59,8 +59,15 @@ def main(tier: str, seed: int, replay: str | None = None) -> int:
     for _ in range(nh):
         h = E.gen_engine_hier(rng)
         h.build()
-        items.append((h, [((E.gen_bound_then_other(rng, h) if k % 5 == 4 else
-                            E.gen_program(rng, h, constrained=(k % 4 != 0))), []) for k in range(npg)]))
+        def one(k):
+            if k % 5 == 4:
+                return E.gen_bound_then_other(rng, h)
+            if k % 5 == 3:
+                return E.gen_elim_two_step(rng, h)
+            if k % 10 == 2:
+                return E.gen_wp_program(rng, h)
+            return E.gen_program(rng, h, constrained=(k % 4 != 0))
+        items.append((h, [(one(k), []) for k in range(npg)]))
     stats = {"accepted": 0, "rejected": 0, "checker_validated": 0, "groundings": 0,
              "resolved_constraints_checked": 0, "errors": {}}
     distinct = set()
